@@ -302,7 +302,8 @@ func baseConfig() map[string]any {
 		},
 		"openapiGeneratorConfig": map[string]any{
 			"openapi": "3.0.0",
-			"info": map[string]any{"title": "T", "version": "1.0.0", "description": "d",
+			// (the texts are copied verbatim: a `$` is a character like any other, nothing in a configuration is expanded)
+			"info": map[string]any{"title": "T", "version": "1.0.0", "description": "d: $5, ${PLAN} or $HOME",
 				"contact": map[string]any{"name": "n", "url": "https://e.com", "email": "a@e.com"},
 				"license": map[string]any{"name": "MIT", "url": "https://l.com"}},
 			"baseUrl": "https://api.example.com",
@@ -394,7 +395,7 @@ func genCfg(seed uint64, n int, tier string, emit func(string, []string, any)) {
 		{path: append(append([]string{}, o...), "openapi"), del: true},
 		{path: append(append([]string{}, o...), "baseUrl"), vals: []any{"not a url", "", "http://localhost:8080", "ftp://x.y/z", "https://api.example.com/v1/", "https://api.example.com/v1"}},
 		{path: append(append([]string{}, o...), "baseUrl"), del: true},
-		{path: append(append([]string{}, o...), "info", "title"), vals: []any{"", "My API é"}},
+		{path: append(append([]string{}, o...), "info", "title"), vals: []any{"", "My API é", "Pay$tub API"}},
 		{path: append(append([]string{}, o...), "info", "version"), vals: []any{"", "v2"}},
 		{path: append(append([]string{}, o...), "info", "contact", "email"), vals: []any{"nope", "", "x@y.z"}},
 		{path: append(append([]string{}, o...), "info", "contact"), del: true},
